@@ -531,6 +531,7 @@ impl<'a> Peripheral<'a> {
             }
             PeripheralState::ValidateConfig => {
                 let address = self.address;
+                let retry_count = self.retry_count;
                 self.retry_count = 0;
                 let (new_state, event) =
                     if let Some(diag) = self.handle_diagnostics_response(fdl, &telegram) {
@@ -562,6 +563,10 @@ impl<'a> Peripheral<'a> {
                             (PeripheralState::ValidateConfig, None)
                         }
                     } else {
+                        // Not a diagnostics reply: this request is still unanswered.  Keep counting
+                        // so that the peripheral is eventually declared offline (which also resets
+                        // the frame count bit) instead of being polled like this forever.
+                        self.retry_count = retry_count;
                         (PeripheralState::ValidateConfig, None)
                     };
                 self.state = new_state;
